@@ -52,10 +52,10 @@ func (a *verifAssets) Users() *flows.UserAssets {
 	}
 	return flows.NewUserAssets(nil)
 }
-func (a *verifAssets) Labels() *flows.LabelAssets           { return flows.NewLabelAssets(nil) }
-func (a *verifAssets) Templates() *flows.TemplateAssets     { return flows.NewTemplateAssets(nil) }
-func (a *verifAssets) Resthooks() *flows.ResthookAssets     { return flows.NewResthookAssets(nil) }
-func (a *verifAssets) OptIns() *flows.OptInAssets           { return flows.NewOptInAssets(nil) }
+func (a *verifAssets) Labels() *flows.LabelAssets       { return flows.NewLabelAssets(nil) }
+func (a *verifAssets) Templates() *flows.TemplateAssets { return flows.NewTemplateAssets(nil) }
+func (a *verifAssets) Resthooks() *flows.ResthookAssets { return flows.NewResthookAssets(nil) }
+func (a *verifAssets) OptIns() *flows.OptInAssets       { return flows.NewOptInAssets(nil) }
 
 func (a *verifAssets) Get(uuid assets.FlowUUID) (flows.Flow, error) {
 	if f, ok := a.flowsByUUID[uuid]; ok && f != nil {
